@@ -869,3 +869,188 @@ Proof.
   - exists (dechunked_headers (head_headers h) (concat (map snd cs))). rewrite <- app_assoc.
     split; [apply parse_chunked_general; assumption|]. split; [reflexivity|intros; contradiction].
 Qed.
+
+(* ================= 6. the serialisation is a valid message ================= *)
+Definition line_of (hd : header) : srv_line :=
+  {| sl_name := hname_str (fst hd); sl_ows := [SP]; sl_value := snd hd |}.
+Definition head_of (r : response) : srv_head :=
+  {| sh_version := s_version r; sh_status := s_status r; sh_phrase := status_phrase (s_status r);
+     sh_lines := map line_of (hsort (s_headers r)) |}.
+Definition body_tail (b : bytes) : bytes := match b with [] => [] | _ => CRLF end.
+
+Lemma crlf_shift {A : Type} (f : A -> bytes) (l : list A) :
+  concat (map (fun h => CRLF ++ f h) l) ++ CRLF = CRLF ++ concat (map (fun h => f h ++ CRLF) l).
+Proof.
+  induction l as [|a l IH]; [cbn [map concat app]; rewrite app_nil_r; reflexivity|].
+  cbn [map concat]. rewrite <- !app_assoc. rewrite IH. reflexivity.
+Qed.
+
+Lemma render_line_of (hd : header) : render_line (line_of hd) = render_header hd ++ CRLF.
+Proof. unfold render_line, line_of, render_header. cbn [sl_name sl_ows sl_value]. app_norm. reflexivity. Qed.
+
+(* the Rust serialiser writes exactly: head of the abstract form, body, and CRLF after a non-empty body (F32) *)
+Lemma serialize_as_head (r : response) :
+  serialize_response r = render_head (head_of r) ++ s_body r ++ body_tail (s_body r).
+Proof.
+  unfold serialize_response, render_head, head_of. cbn [sh_version sh_status sh_phrase sh_lines].
+  rewrite map_map.
+  rewrite (map_ext (fun x => render_line (line_of x)) (fun x => render_header x ++ CRLF) render_line_of).
+  replace (match s_body r with [] => [] | b => b ++ CRLF end) with (s_body r ++ body_tail (s_body r))
+    by (destruct (s_body r); reflexivity).
+  rewrite <- !app_assoc. do 5 f_equal.
+  rewrite (app_assoc _ CRLF). rewrite crlf_shift. rewrite <- !app_assoc. reflexivity.
+Qed.
+
+Definition field_of (hd : header) : bytes * bytes := (hname_str (fst hd), snd hd).
+
+Lemma header_lines_ok (l : headers) : Forall wf_header l ->
+  HeaderLines (map field_of l) (concat (map (fun hd => render_line (line_of hd)) l)).
+Proof.
+  induction 1 as [|hd l (_ & Ht & Hf & _ & Hp & Hs) _ IH]; [constructor|].
+  cbn [map concat]. unfold field_of at 1.
+  replace (render_line (line_of hd) ++ concat (map (fun hd0 => render_line (line_of hd0)) l))
+    with (hname_str (fst hd) ++ [COLON] ++ [SP] ++ snd hd ++ [] ++ CRLF ++ concat (map (fun hd0 => render_line (line_of hd0)) l))
+    by (unfold render_line, line_of; cbn [sl_name sl_ows sl_value]; app_norm; reflexivity).
+  apply HL_cons; try assumption.
+  - constructor; [left; reflexivity|constructor].
+  - constructor.
+  - split; assumption.
+Qed.
+
+Lemma http_version_1x (v : bytes) : v = Txt.s_http10 \/ v = Txt.s_http11 -> http_version v.
+Proof.
+  intros [-> | ->]; [exists 49, 48|exists 49, 49]; unfold digit; (split; [lia|]); (split; [lia|]); reflexivity.
+Qed.
+
+Lemma printable_field_text (s : bytes) : Forall (fun b => 32 <= b /\ b <= 126) s -> field_text s.
+Proof. apply Forall_impl. unfold field_byte. intros; lia. Qed.
+
+Lemma status_line_valid (r : response) : wf_response r ->
+  StatusLine (s_version r) (status_code (s_status r)) (status_phrase (s_status r)) (status_line (head_of r)).
+Proof.
+  intros (Hv & Hs & _). unfold status_line, head_of. cbn [sh_version sh_status sh_phrase].
+  destruct (status_code_3digits _ Hs) as (d1 & d2 & d3 & E & H1 & H2 & H3 & Ec).
+  rewrite E. pose proof (status_registered _ Hs) as Hr. rewrite Ec in Hr |- *.
+  apply SL_intro; try assumption.
+  - apply http_version_1x, Hv.
+  - apply printable_field_text, status_phrase_printable, Hs.
+Qed.
+
+Lemma serialize_valid_lemma (r : response) : wf_response r ->
+  exists hs' : headers,
+    Permutation hs' (s_headers r) /\
+    (forall n, filter (fun h => hname_eqb n (fst h)) hs' = filter (fun h => hname_eqb n (fst h)) (s_headers r)) /\
+    Renders {| m_version := s_version r; m_code := status_code (s_status r); m_phrase := status_phrase (s_status r);
+               m_fields := map (fun hd => (hname_str (fst hd), snd hd)) hs'; m_body := s_body r |}
+            (serialize_response r).
+Proof.
+  intros H. exists (hsort (s_headers r)). split; [apply hsort_perm|]. split; [intros n; apply (hsort_filter n)|].
+  rewrite serialize_as_head, render_head_split, <- !app_assoc.
+  pose proof H as (_ & _ & Hh & _).
+  apply (R_intro {| m_version := s_version r; m_code := status_code (s_status r); m_phrase := status_phrase (s_status r);
+                    m_fields := map field_of (hsort (s_headers r)); m_body := s_body r |}).
+  - cbn [m_version m_code m_phrase]. apply status_line_valid, H.
+  - cbn [m_fields head_of sh_lines]. rewrite map_map. apply header_lines_ok, Forall_hsort, Hh.
+  - unfold body_tail. destruct (s_body r); [left|right]; reflexivity.
+Qed.
+
+Lemma serialize_is_message (r : response) : wf_response r -> HttpMessage (serialize_response r).
+Proof. intros H. destruct (serialize_valid_lemma r H) as (hs' & _ & _ & R). eexists. exact R. Qed.
+
+(* ================= 7. round trip ================= *)
+Lemma printable_noLF (s : bytes) : Forall (fun b => 32 <= b /\ b <= 126) s -> ~ In LF s.
+Proof. intros H Hin. rewrite Forall_forall in H. specialize (H _ Hin). unfold LF in H. lia. Qed.
+Lemma printable_ascii (s : bytes) : Forall (fun b => 32 <= b /\ b <= 126) s -> ascii s.
+Proof. apply Forall_impl. intros; lia. Qed.
+
+Lemma line_of_ok (hd : header) : rt_header hd -> line_ok (line_of hd).
+Proof.
+  intros (_ & Ht & Hv). unfold line_ok, line_of. cbn [sl_name sl_ows sl_value].
+  split; [exact Ht|]. split; [|exact Hv]. constructor; [left; reflexivity|constructor].
+Qed.
+
+Lemma head_of_ok (r : response) : rt_response r -> head_ok (head_of r).
+Proof.
+  intros (Hsp & Hlf & Hu & Hs & Hh & _). unfold head_ok, head_of. cbn [sh_version sh_status sh_phrase sh_lines].
+  pose proof (status_phrase_printable _ Hs) as Hp.
+  repeat split; try assumption.
+  - apply printable_noLF, Hp.
+  - apply utf8_valid_ascii, printable_ascii, Hp.
+  - apply Forall_map. apply Forall_hsort. eapply Forall_impl; [|exact Hh]. apply line_of_ok.
+Qed.
+
+Lemma head_headers_of (r : response) : rt_response r -> head_headers (head_of r) = hsort (s_headers r).
+Proof.
+  intros (_ & _ & _ & _ & Hh & _). unfold head_headers, head_of. cbn [sh_lines]. rewrite map_map.
+  apply Forall_hsort in Hh. induction Hh as [|[n v] l (Hc & _) _ IH]; [reflexivity|].
+  cbn [map line_of sl_name sl_value fst snd] in *. rewrite IH. unfold canonical_name in Hc. cbn [fst] in Hc. rewrite Hc.
+  reflexivity.
+Qed.
+
+Lemma roundtrip_lemma (r : response) : rt_response r -> framing_ok r ->
+  parse_response_flat (serialize_response r) =
+  Ok ({| s_version := s_version r; s_status := s_status r; s_headers := hsort (s_headers r); s_body := s_body r |},
+      match s_body r with [] => [] | _ => CRLF end).
+Proof.
+  intros H (Hte & Hf). pose proof (head_of_ok r H) as Hok. pose proof (head_headers_of r H) as Ehh.
+  pose proof H as (_ & _ & _ & _ & _ & Hmax).
+  assert (Hnc : ~ is_chunked (head_headers (head_of r))).
+  { rewrite Ehh. unfold is_chunked. rewrite hget_hsort. exact Hte. }
+  rewrite serialize_as_head. change (match s_body r with [] => [] | _ => CRLF end) with (body_tail (s_body r)).
+  destruct Hf as [Hcl|[Hcl Hb]].
+  - rewrite (parse_cl_lemma (head_of r) (s_body r) (body_tail (s_body r)) Hok).
+    + rewrite Ehh. reflexivity.
+    + split; [exact Hnc|]. exists (dec_render (N.of_nat (length (s_body r)))).
+      split; [rewrite Ehh, hget_hsort; exact Hcl|]. split; [apply dec_str_render|exact Hmax].
+  - rewrite Hb. cbn [body_tail app].
+    rewrite (parse_nobody_lemma (head_of r) [] Hok).
+    + rewrite Ehh. reflexivity.
+    + split; [exact Hnc|]. rewrite Ehh, hget_hsort. exact Hcl.
+Qed.
+
+Lemma field_text_noLF (v : bytes) : field_text v -> ~ In LF v.
+Proof.
+  intros H Hin. unfold field_text in H. rewrite Forall_forall in H. specialize (H _ Hin). unfold field_byte, LF in H. lia.
+Qed.
+
+Lemma wf_rt_response (r : response) : wf_response r -> rt_response r.
+Proof.
+  intros (Hv & Hs & Hh & Hmax). unfold rt_response.
+  assert (Hver : ~ In SP (s_version r) /\ ~ In LF (s_version r) /\ utf8_valid (s_version r) = true).
+  { destruct Hv as [-> | ->]; (split; [|split; [|reflexivity]]); intros Hin; cbv in Hin;
+      repeat (destruct Hin as [Hin|Hin]; [discriminate|]); exact Hin. }
+  destruct Hver as (A & B & C). repeat split; try assumption.
+  eapply Forall_impl; [|exact Hh]. intros hd (Hc & Ht & Hf & Hu & Hp & _).
+  split; [exact Hc|]. split; [exact Ht|]. split; [apply field_text_noLF, Hf|]. split; assumption.
+Qed.
+
+(* the property's reading: parse(serialise r) is r with the same version, status, body and, name by name, the same
+   header values in the same order; what is left unread is nothing, or the CRLF of F32 *)
+Lemma roundtrip_same (r : response) : wf_response r -> framing_ok r ->
+  exists r' leftover,
+    parse_response_flat (serialize_response r) = Ok (r', leftover) /\
+    s_version r' = s_version r /\ s_status r' = s_status r /\ s_body r' = s_body r /\
+    same_headers (s_headers r') (s_headers r) /\ Permutation (s_headers r') (s_headers r) /\
+    (leftover = [] \/ leftover = CRLF) /\ (s_body r = [] -> leftover = []).
+Proof.
+  intros H Hf. eexists. eexists. split; [apply roundtrip_lemma; [apply wf_rt_response, H|exact Hf]|].
+  cbn [s_version s_status s_body s_headers]. repeat split.
+  - intros n. apply hget_all_hsort.
+  - apply hsort_perm.
+  - destruct (s_body r); [left|right]; reflexivity.
+  - intros ->. reflexivity.
+Qed.
+
+(* ================= 8. Set-Cookie ================= *)
+Lemma same_site_text_str (s : N) : same_site_text s = same_site_str s.
+Proof. destruct s as [|p]; [reflexivity|]. destruct p; reflexivity. Qed.
+
+Lemma set_cookie_spec_lemma (c : set_cookie) :
+  set_cookie_header c = (HKnown H_SetCookie, cookie_text c) /\ hname_str (HKnown H_SetCookie) = Txt.s_set_cookie.
+Proof.
+  split; [|reflexivity].
+  unfold set_cookie_header, cookie_text, cookie_attrs. f_equal. do 3 f_equal.
+  destruct c as [nm vl ex ma dm pa se ho ss]. cbn [sc_expires sc_max_age sc_domain sc_path sc_secure sc_http_only sc_same_site].
+  destruct ex, ma, dm, pa, ss, se, ho; cbn [option_map opt_attr flag_attr app map concat];
+    rewrite ?same_site_text_str, ?app_nil_r; app_norm; reflexivity.
+Qed.
